@@ -32,6 +32,24 @@ int main(int argc, char** argv) {
     while (!q2.empty()) { Message* t = q2.top(); q2.pop(); char b[8]; snprintf(b, 8, "%u ", t->m_pollOrder); seq += b; if (t->m_pollOrder < last) sorted = false; last = t->m_pollOrder; count++; }
     if (!sorted || count != ms.size()) fail("poll queue with orders 1 5 2 6 7 3 4: after pushing the already queued message of order %u again, messages are selected in order [%s] (not by ascending poll order, %zu of %zu entries)", orders[again], seq.c_str(), count, ms.size());
   }
+  // a poll message that is added (with a priority from its definition) after polling went on for a while must not be preferred until it has caught up
+  {
+    MessageMap mm("");
+    std::map<std::string, std::string> attrs;
+    auto def = [&](const char* name, symbol_t idb, size_t prio) {
+      const DataField* data = new SingleDataField("v", attrs, DataTypeList::getInstance()->get("UCH"), pt_slaveData, 1);
+      std::vector<symbol_t> id = {0xb5, 0x09, idb};
+      return new Message("file", "cir", "", name, false, false, attrs, SYN, 0x15, id, data, true, prio);
+    };
+    Message* a = def("a", 0x01, 1); Message* b = def("b", 0x02, 1);
+    mm.addPollMessage(false, a); mm.addPollMessage(false, b);
+    for (int i = 0; i < 1000; i++) mm.getNextPoll();
+    Message* c = def("c", 0x03, 1);                 // e.g. a configuration file loaded later for a newly scanned device
+    mm.addPollMessage(false, c);
+    int run = 0, others = 0;
+    for (int i = 0; i < 300; i++) { Message* n = mm.getNextPoll(); if (n == c && others == 0) run++; else others++; }
+    if (run > 20) fail("three poll messages of priority 1, the third one added after 1000 selections: it is selected %d times in a row, the other two are not polled at all meanwhile (waiting time grows with the polling history)", run);
+  }
   if (!g_failures) printf("NOT-REPRODUCED\n");
   fflush(stdout);
   return g_failures ? 1 : 0;
